@@ -304,3 +304,22 @@ Definition lookup_oriented (nv nt : nat) (OF NF : mat nat) (f2t : mat Z) (f2t0' 
   let nf (i : nat) := searchsorted (map (facet_key nv) NF) (facet_key nv (nth i OF [])) in
   (map (fun io => nf (fst io)) ps,
    map (fun io : nat * bool => lookup_flag nt f2t0' (nf (fst io)) (nth (fst io) (nth (if snd io then 1 else 0) f2t []) (- 1)%Z)) ps).
+
+(* ---- MeshLine1._intervals: x = np.unique(p[0, t]); ends = searchsorted(x, sort(p[0, t], axis=0));
+        iscell[ends[0, ends[1] == ends[0] + 1]] = True      (coordinates as natural numbers) *)
+Definition line_levels (pz : list nat) (t0 t1 : list nat) : list nat :=
+  unique_nat (map (fun v => nth v pz 0) (t0 ++ t1)).
+Definition line_iscell (pz : list nat) (t0 t1 : list nat) : list bool :=
+  let x := line_levels pz t0 t1 in
+  map (fun i => existsb (fun e : nat * nat =>
+                  let a := nth (fst e) pz 0 in let b := nth (snd e) pz 0 in
+                  (searchsorted x (Nat.min a b) =? i) && (searchsorted x (Nat.max a b) =? i + 1))
+                (combine t0 t1)) (seq 0 (length x)).
+(* the levels that carry a layer of wedges, increasing *)
+Definition cell_levels (iscell : list bool) : list nat := filter (fun i => nth i iscell false) (seq 0 (length iscell)).
+
+(* ---- MeshTri1.__mul__: level i holds the points v + i*nv; a layer of wedges for every level i with iscell[i] *)
+Definition extrude_cells_t (nv : nat) (cells : list nat) (t : mat nat) : mat nat :=
+  let blocks := map (fun l => map (map (fun v => v + l * nv)) t ++ map (map (fun v => v + nv + l * nv)) t) cells in
+  map (fun i => concat (map (fun blk => nth i blk []) blocks)) (seq 0 (2 * length t)).
+
